@@ -454,6 +454,19 @@ def run_check(prop, tier, seed):
                               "broken": "theorem %s no longer checks: %s; failing files: %s" %
                                         (t, ass.get(t), ", ".join(b.coq_failed_files) or "?"),
                               "coq_log": b.logs.get("coq", "")[-1500:]})
+    if thms and prop_ok and tier == "thorough":
+        # the independent checker re-checks the compiled theorems and everything they depend on
+        ob = "coqchk -o re-checks props/%s.vo and all its dependencies: no axiom, nothing relying on type-in-type, unsafe fixpoints or assumed positivity" % prop
+        obligations.append(ob)
+        rc, out = K.sh(["coqchk", "-silent", "-o", "-Q", "theories", "KV", "KV.props.%s" % prop], cwd=K.COQ, timeout=1500)
+        flat = " ".join(out.split())
+        good = (rc == 0 and "Axioms: <none>" in flat and "type-in-type: <none>" in flat and "unsafe (co)fixpoints: <none>" in flat
+                and "positivity is assumed: <none>" in flat)
+        report["coqchk"] = "ok" if good else out[-600:]
+        if good:
+            discharged.append(ob)
+        else:
+            viols.append({"witness": False, "suite": "coq", "broken": "coqchk does not accept props/%s.vo as axiom-free: %s" % (prop, out[-400:])})
     report["theorems"] = thms
     report["coq_build_ok"] = coq_ok
     # --- correspondence suites
